@@ -457,6 +457,9 @@ class Solver(object):
         # integrate with.
         self.dt = self._get_timestep()
 
+        # The very first step must also not step over a requested output time.
+        self._adjust_timestep_for_output()
+
         while (self.tf - self.t) > self._epsilon and \
               (self.count < self.max_steps):
 
@@ -707,12 +710,21 @@ class Solver(object):
 
         # Consider the other cases if user has requested output at a specified
         # time.
+        if self._adjust_timestep_for_output():
+            dump = True
 
+        if dump:
+            self.dump_output()
+            self.barrier()
+
+    def _adjust_timestep_for_output(self):
+        """Adjust dt to land on specific output times.  Returns True if we
+        have reached a desired output time.
+        """
         output_at_times = self.output_at_times
         dt = self.dt
+        dump = False
 
-        # adjust dt to land on specific output times or dump output if we have
-        # reached a desired time.
         if len(output_at_times) > 0:
             tdiff = output_at_times - self.t
 
@@ -740,9 +752,7 @@ class Solver(object):
                     self._prev_dt = dt
                     self.dt = float(output_time - self.t)
 
-        if dump:
-            self.dump_output()
-            self.barrier()
+        return dump
 
     def _get_solver_data(self):
         if self._prev_dt is not None:
